@@ -1,1 +1,319 @@
-//! C16 — (harnesses not written yet)
+//! C16 — polygon and multipatch constructors close and orient rings, losing no vertex.
+use crate::env::*;
+use crate::model::*;
+use crate::refcodec::*;
+use shapefile::record::polygon::GenericPolygon;
+use shapefile::record::traits::{GrowablePoint, HasXY, ShrinkablePoint};
+use shapefile::*;
+
+fn small_int() -> i32 {
+    let v: i8 = kani::any();
+    kani::assume(v >= -8 && v <= 8);
+    v as i32
+}
+
+/// Twice the exact signed area in the orientation convention of the whitepaper (clockwise
+/// positive), computed in integers.
+fn shoelace2(xy: &[[i32; 2]], n: usize) -> i32 {
+    let mut acc: i32 = 0;
+    let mut i = 0;
+    while i + 1 < n {
+        acc += (xy[i + 1][0] - xy[i][0]) * (xy[i + 1][1] + xy[i][1]);
+        i += 1;
+    }
+    acc
+}
+
+// ---- K: the orientation kernel alone --------------------------------------------------
+
+/// `PolygonRing::from(Vec<Point>)` (the classification used when a polygon is read or
+/// converted from a polyline): Outer iff the exact integer shoelace sum is >= 0.
+fn kernel<const N: usize>() {
+    let mut xy = [[0i32; 2]; N];
+    let mut pts = Vec::with_capacity(N);
+    let mut i = 0;
+    while i < N {
+        xy[i] = [small_int(), small_int()];
+        pts.push(Point::new(xy[i][0] as f64, xy[i][1] as f64));
+        i += 1;
+    }
+    let s2 = shoelace2(&xy, N);
+    let ring = PolygonRing::from(pts);
+    match &ring {
+        PolygonRing::Outer(_) => assert!(s2 >= 0, "a counter-clockwise ring was classified as outer"),
+        PolygonRing::Inner(_) => assert!(s2 < 0, "a clockwise (or zero-area) ring was classified as inner"),
+    }
+    kani::cover!(s2 > 0);
+    kani::cover!(s2 < 0);
+    std::mem::forget(ring);
+}
+// H: tier=quick; sym=4 vertices with integer coordinates in [-8,8]^2 (shoelace exact in f64); call=PolygonRing::from(Vec<Point>); asserts=Outer iff exact integer signed area (clockwise positive) >= 0
+#[kani::proof]
+#[kani::unwind(8)]
+fn c16_q_kernel_4() {
+    kernel::<4>();
+}
+// H: tier=thorough; sym=3 vertices, integer coordinates in [-8,8]^2; call=PolygonRing::from; asserts=as kernel_4
+#[kani::proof]
+#[kani::unwind(8)]
+fn c16_t_kernel_3() {
+    kernel::<3>();
+}
+// H: tier=thorough; timeout=3000; sym=5 vertices, integer coordinates in [-8,8]^2; call=PolygonRing::from; asserts=as kernel_4
+#[kani::proof]
+#[kani::unwind(8)]
+fn c16_t_kernel_5() {
+    kernel::<5>();
+}
+
+// ---- constructors: closing + orientation + vertex preservation -------------------------
+
+/// One ring through `GenericPolygon::<P>::with_rings`: interior vertices have symbolic small
+/// integer X/Y (so that the orientation oracle is exact) and symbolic Z/M; the two end vertices
+/// are pinned so that closedness is decided by constant folding:
+///   closed: both ends are the concrete point (0,0,5,6);
+///   open:   first.x = 1, last.x = 2 (other end coordinates symbolic small integers).
+/// Asserts the whole statement for that ring.
+fn one_ring<P, const N: usize>(declared_outer: bool, closed: bool)
+where
+    P: Pt + HasXY + ShrinkablePoint + GrowablePoint,
+{
+    let mut xy = [[0i32; 2]; 8];
+    let mut zm = [[0.0f64; 2]; 8];
+    let mut i = 0;
+    while i < N {
+        xy[i] = [small_int(), small_int()];
+        zm[i] = [any_f64_not_nan(), any_f64_not_nan()];
+        i += 1;
+    }
+    if closed {
+        xy[0] = [0, 0];
+        xy[N - 1] = [0, 0];
+        zm[0] = [5.0, 6.0];
+        zm[N - 1] = [5.0, 6.0];
+    } else {
+        xy[0][0] = 1;
+        xy[N - 1][0] = 2;
+    }
+    let mut pts: Vec<P> = Vec::with_capacity(N + 1);
+    let mut i = 0;
+    while i < N {
+        pts.push(P::mk(&[xy[i][0] as f64, xy[i][1] as f64, zm[i][0], zm[i][1]]));
+        i += 1;
+    }
+    // the sequence the result must consist of: the input, closed by a copy of its first vertex
+    let mut want = [[0.0f64; 4]; 8];
+    let mut wxy = [[0i32; 2]; 8];
+    let mut i = 0;
+    while i < N {
+        want[i] = pts[i].get();
+        wxy[i] = xy[i];
+        i += 1;
+    }
+    let mut wn = N;
+    if !closed {
+        want[N] = want[0];
+        wxy[N] = xy[0];
+        wn = N + 1;
+    }
+    let ring = if declared_outer { PolygonRing::Outer(pts) } else { PolygonRing::Inner(pts) };
+    let poly = GenericPolygon::<P>::with_rings(vec![ring]);
+    let rings = poly.rings();
+    assert!(rings.len() == 1);
+    let (is_outer, got) = match &rings[0] {
+        PolygonRing::Outer(p) => (true, p),
+        PolygonRing::Inner(p) => (false, p),
+    };
+    assert!(is_outer == declared_outer, "the declared role of the ring was changed");
+    assert!(got.len() == wn, "a vertex was lost or added (beyond the closing copy)");
+    assert!(got[0] == got[wn - 1], "ring is not closed");
+    // kept or reversed as a whole, nothing altered
+    let mut same = true;
+    let mut rev = true;
+    let mut i = 0;
+    while i < wn {
+        let g = got[i].get();
+        let a = want[i];
+        let b = want[wn - 1 - i];
+        if !(beq(g[0], a[0]) && beq(g[1], a[1]) && beq(g[2], a[2]) && beq(g[3], a[3])) {
+            same = false;
+        }
+        if !(beq(g[0], b[0]) && beq(g[1], b[1]) && beq(g[2], b[2]) && beq(g[3], b[3])) {
+            rev = false;
+        }
+        i += 1;
+    }
+    assert!(same || rev, "the vertex sequence is neither the caller's nor its reverse");
+    // orientation of the result by exact signed area
+    let s2_in = shoelace2(&wxy, wn);
+    let s2_out = if same { s2_in } else { -s2_in };
+    if declared_outer {
+        assert!(s2_out >= 0, "outer ring is not clockwise");
+    } else {
+        assert!(s2_out <= 0, "inner ring is not counter-clockwise");
+    }
+    // rebuilding from its own rings changes nothing when the area is not zero
+    if s2_in != 0 {
+        assert!(if (s2_in > 0) == declared_outer { same } else { rev }, "ring reversed although it already had the declared orientation (or kept although it had not)");
+    }
+    kani::cover!(s2_in > 0, "input clockwise");
+    kani::cover!(s2_in < 0, "input counter-clockwise");
+    std::mem::forget(poly);
+}
+
+macro_rules! ring {
+    ($name:ident, $P:ty, $N:expr, $outer:expr, $closed:expr) => {
+        #[kani::proof]
+        #[kani::unwind(10)]
+        fn $name() {
+            one_ring::<$P, $N>($outer, $closed);
+        }
+    };
+}
+// H: tier=quick; unwind=10; sym=closed ring of 4 Points declared Outer: 2 interior vertices with integer XY in [-8,8]^2; ends concrete equal; call=Polygon::with_rings; asserts=closed, role kept, vertex sequence = input kept or reversed as a whole, outer clockwise by exact area, kept iff already clockwise (non-zero area)
+ring!(c16_q_polygon_closed4_outer, Point, 4, true, true);
+// H: tier=quick; unwind=10; sym=closed ring of 4 Points declared Inner; call=Polygon::with_rings; asserts=as above, inner counter-clockwise
+ring!(c16_q_polygon_closed4_inner, Point, 4, false, true);
+// H: tier=quick; unwind=10; sym=open ring of 3 PointM declared Inner (ends differ by concrete X), integer XY, symbolic non-NaN M; call=PolygonM::with_rings; asserts=one copy of the first vertex appended, then as above incl. M carried with its vertex
+ring!(c16_q_polygonm_open3_inner, PointM, 3, false, false);
+// H: tier=quick; unwind=10; sym=closed ring of 4 PointZ declared Outer, integer XY, symbolic non-NaN Z and M; call=PolygonZ::with_rings; asserts=as above incl. Z/M carried with their vertex
+ring!(c16_q_polygonz_closed4_outer, PointZ, 4, true, true);
+// H: tier=thorough; timeout=3000; unwind=10; sym=open ring of 4 Points declared Outer; call=Polygon::with_rings; asserts=as above
+ring!(c16_t_polygon_open4_outer, Point, 4, true, false);
+// H: tier=thorough; timeout=3000; unwind=10; sym=open ring of 4 PointM declared Inner; call=PolygonM::with_rings; asserts=as above
+ring!(c16_t_polygonm_open4_inner, PointM, 4, false, false);
+// H: tier=thorough; timeout=5000; unwind=10; sym=closed ring of 5 Points declared Outer (3 interior vertices); call=Polygon::with_rings; asserts=as above
+ring!(c16_t_polygon_closed5_outer, Point, 5, true, true);
+// H: tier=thorough; timeout=5000; unwind=10; sym=closed ring of 5 PointZ declared Inner; call=PolygonZ::with_rings; asserts=as above
+ring!(c16_t_polygonz_closed5_inner, PointZ, 5, false, true);
+// H: tier=thorough; timeout=3000; unwind=10; sym=open ring of 3 Points declared Outer; call=Polygon::with_rings; asserts=as above
+ring!(c16_t_polygon_open3_outer, Point, 3, true, false);
+
+// H: tier=quick; unwind=10; sym=Z/M of nothing (all concrete); rings=PolygonM ring whose first and last vertex share X/Y but differ in M only; asserts=not treated as closed: a copy of the first vertex (with ITS measure) is appended; no vertex altered
+#[kani::proof]
+#[kani::unwind(10)]
+fn c16_q_polygonm_ends_differ_in_m_only() {
+    let m_mid = any_f64_not_nan();
+    let pts = vec![
+        PointM::new(0.0, 0.0, 1.0),
+        PointM::new(0.0, 4.0, m_mid),
+        PointM::new(4.0, 4.0, 3.0),
+        PointM::new(0.0, 0.0, 2.0),
+    ];
+    let poly = PolygonM::with_rings(vec![PolygonRing::Outer(pts)]);
+    let r = poly.rings()[0].points();
+    assert!(r.len() == 5, "ring whose ends differ only in M was taken for closed");
+    assert!(r[0] == r[4]);
+    // clockwise already: kept
+    assert!(r[0].m == 1.0 && r[3].m == 2.0 && r[4].m == 1.0 && beq(r[1].m, m_mid) && r[2].m == 3.0);
+    kani::cover!(true, "closed by a copy of the first vertex");
+    std::mem::forget(poly);
+}
+
+// H: tier=quick; unwind=10; sym=one interior vertex (integer XY) in each of two rings; rings=[closed outer 4, open inner 3] through the polygon! macro; asserts=both closed, roles kept, each kept or reversed according to its exact area, ring order kept
+#[kani::proof]
+#[kani::unwind(10)]
+fn c16_q_polygon_macro_two_rings() {
+    let a = [small_int(), small_int()];
+    let b = [small_int(), small_int()];
+    let f = |v: i32| v as f64;
+    // `shapefile::polygon!` expands to paths starting with `shapefile::`
+    let poly = shapefile::polygon! {
+        Outer((0.0, 0.0), (0.0, 3.0), (f(a[0]), f(a[1])), (0.0, 0.0)),
+        Inner((1.0, 1.0), (f(b[0]), f(b[1])), (2.0, 1.0))
+    };
+    let rings = poly.rings();
+    assert!(rings.len() == 2);
+    assert!(matches!(rings[0], PolygonRing::Outer(_)) && matches!(rings[1], PolygonRing::Inner(_)));
+    let o = rings[0].points();
+    let i = rings[1].points();
+    assert!(o.len() == 4 && i.len() == 4, "closed ring changed length / open ring not closed by one vertex");
+    assert!(o[0] == o[3] && i[0] == i[3]);
+    let s2o = shoelace2(&[[0, 0], [0, 3], a, [0, 0]], 4);
+    if s2o > 0 {
+        assert!(beq(o[1].x, 0.0) && beq(o[1].y, 3.0) && beq(o[2].x, f(a[0])), "clockwise outer ring was reversed");
+    }
+    if s2o < 0 {
+        assert!(beq(o[1].x, f(a[0])) && beq(o[1].y, f(a[1])) && beq(o[2].y, 3.0), "counter-clockwise outer ring was not reversed");
+    }
+    let s2i = shoelace2(&[[1, 1], b, [2, 1], [1, 1]], 4);
+    if s2i < 0 {
+        assert!(beq(i[0].x, 1.0) && beq(i[1].x, f(b[0])) && beq(i[2].x, 2.0), "counter-clockwise inner ring was reversed");
+    }
+    if s2i > 0 {
+        assert!(beq(i[1].x, 2.0) && beq(i[2].x, f(b[0])), "clockwise inner ring was not reversed");
+    }
+    kani::cover!(s2o < 0 && s2i > 0, "both rings had to be reversed");
+    std::mem::forget(poly);
+}
+
+// ---- multipatch -----------------------------------------------------------------------
+
+/// One patch of `kind` through Multipatch::with_parts; vertices symbolic non-NaN doubles;
+/// `open`: ends differ by concrete X; otherwise ends concrete equal.
+fn one_patch<const N: usize>(kind: i32, open: bool) {
+    let mut m = Model::with_structure(T_MULTIPATCH, &[N]);
+    m.pkind[0] = kind;
+    sym_vertices(&mut m);
+    if open {
+        pin_open(&mut m, 0, 1.0, 2.0);
+    } else {
+        pin_closed(&mut m, 0, [1.0, 2.0, 3.0, 4.0]);
+    }
+    let mut i = 0;
+    while i < m.nv {
+        let mut c = 0;
+        while c < 4 {
+            kani::assume(m.v[i][c] == m.v[i][c]);
+            c += 1;
+        }
+        i += 1;
+    }
+    let mp = Multipatch::build(&m);
+    let got = mp.extract();
+    assert!(got.nparts == 1 && got.pkind[0] == kind, "patch kind changed");
+    let is_ring = kind >= 2;
+    let want_n = if is_ring && open { N + 1 } else { N };
+    assert!(got.nv == want_n, "ring patch not closed by exactly one vertex / strip or fan touched");
+    let mut i = 0;
+    while i < N {
+        let mut c = 0;
+        while c < 4 {
+            assert!(beq(got.v[i][c], m.v[i][c]), "a patch vertex was altered or moved");
+            c += 1;
+        }
+        i += 1;
+    }
+    if want_n == N + 1 {
+        let mut c = 0;
+        while c < 4 {
+            assert!(beq(got.v[N][c], m.v[0][c]), "closing vertex is not a copy of the first");
+            c += 1;
+        }
+    }
+    kani::cover!(true, "patch built");
+    std::mem::forget(mp);
+}
+macro_rules! patch {
+    ($name:ident, $N:expr, $kind:expr, $open:expr) => {
+        #[kani::proof]
+        #[kani::unwind(10)]
+        fn $name() {
+            one_patch::<$N>($kind, $open);
+        }
+    };
+}
+// H: tier=quick; unwind=10; sym=3 vertices x 4 non-NaN f64; patch=open OuterRing; call=Multipatch::with_parts; asserts=closed by one copy of the first vertex, vertices untouched, kind kept
+patch!(c16_q_multipatch_outer_open3, 3, 2, true);
+// H: tier=quick; unwind=10; sym=3 vertices; patch=open InnerRing; asserts=as above
+patch!(c16_q_multipatch_inner_open3, 3, 3, true);
+// H: tier=quick; unwind=10; sym=3 vertices; patch=open FirstRing; asserts=as above
+patch!(c16_q_multipatch_first_open3, 3, 4, true);
+// H: tier=quick; unwind=10; sym=3 vertices; patch=open Ring; asserts=as above
+patch!(c16_q_multipatch_ring_open3, 3, 5, true);
+// H: tier=quick; unwind=10; sym=4 vertices; patch=closed Ring (ends concrete equal); asserts=left as it is
+patch!(c16_q_multipatch_ring_closed4, 4, 5, false);
+// H: tier=quick; unwind=10; sym=3 vertices; patch=TriangleStrip whose ends differ; asserts=left untouched (not closed)
+patch!(c16_q_multipatch_strip_open3, 3, 0, true);
+// H: tier=quick; unwind=10; sym=3 vertices; patch=TriangleFan whose ends differ; asserts=left untouched (not closed)
+patch!(c16_q_multipatch_fan_open3, 3, 1, true);
